@@ -246,7 +246,17 @@ Fixpoint consistent (ι : nat -> ident) (p : lprop) : Prop :=
 (* StingyConfigurator.default_prios : dict(zip(ids of flatten(), getattr(p, "prio", -1)));
    ge_polyhedron = to_ge_polyhedron(True) + default_prio_vector = A.construct(default_prios) *)
 Definition prio_of (p : prop) : Z := match m_prio (meta_of p) with Some z => z | None => -1 end.
-Definition default_prios (c : prop) : list (ident * Z) := map (fun q => (id_of q, prio_of q)) (flatten c).
+(* (after fix 8d06f82) flatten() keeps ONE object per id/hash, and the non-default branch of a
+   defaulted Any is tagged by a `prio` attribute only, so the tag is collected from EVERY
+   occurrence in the tree:  prios[id] = min(-1, prio of every node carrying that id) *)
+Fixpoint occurrences (p : prop) : list prop :=
+  match p with
+  | Var _ _ _ => [p]
+  | Node _ _ _ _ _ _ _ ch => p :: flat_map occurrences ch
+  end.
+Definition prio_min (c : prop) (i : ident) : Z :=
+  fold_right Z.min (-1) (map prio_of (filter (fun q => String.eqb (id_of q) i) (occurrences c))).
+Definition default_prios (c : prop) : list (ident * Z) := map (fun q => (id_of q, prio_min c (id_of q))) (flatten c).
 Record cpoly := mkCPoly { cp_cols : list (ident * (Z * Z)); cp_rows : list (list Z); cp_dpv : list Z }.
 Definition config_polyhedron (c : prop) : cpoly :=
   let '(cols, rows) := to_ge_polyhedron true c in
